@@ -71,7 +71,7 @@ func VH_C14_sweeper() {
 }
 
 // VH_C14_ttl: TTL reports the remaining whole seconds, -1 without deadline.
-//verif:cfg b_ex=1,10,100,3600,1.9,10.5 ignorego=1
+//verif:cfg b_ex=1,10,100,3600,1.9,10.5 b_expire=the_same_six_values_on_a_point_and_on_a_string ignorego=1
 func VH_C14_ttl() {
 	s := vhServer()
 	ex := [6]string{"1", "10", "100", "3600", "1.9", "10.5"}
@@ -97,6 +97,21 @@ func VH_C14_ttl() {
 	vhDo(s, "PERSIST", "k", "a")
 	r3, _, _ := vhDo(s, "TTL", "k", "a")
 	vassert("C14.persist_clears", r3.Integer() == -1)
+	// EXPIRE moves the deadline to now + seconds, fractions included (on a point and on a string)
+	vhDo(s, "SET", "k", "s", "STRING", "v")
+	for _, id := range []string{"c", "s"} {
+		j := vchoose(6)
+		r4, _, err := vhDo(s, "EXPIRE", "k", id, ex[j])
+		vassert("C14.expire_ok", err == nil && r4.Integer() == 1)
+		dl, _ := vhDeadline(s, "k", id)
+		left := dl - time.Now().UnixNano()
+		w := [6]int64{1000, 10000, 100000, 3600000, 1900, 10500}[j] * 1000000
+		vassert("C14.expire_deadline_is_now_plus_seconds", left <= w && left > w-500*1000000)
+		r5, _, _ := vhDo(s, "TTL", "k", id)
+		if j >= 4 {
+			vassert("C14.expire_ttl_fractional", r5.Integer() == exv[j])
+		}
+	}
 }
 
 // VH_C14_hooks: hooks and channels created with EX expire the same way: the hook sweeper removes exactly those
